@@ -79,11 +79,18 @@ def traced_parse(doc, headers=None, loose=False, **kw):
         r = real_join(base, uri)
         log.append({"k": "join", "base": base, "uri": uri, "result": r})
         return r
+    import feedparser.namespaces._base as nsbase
+    real_pd = nsbase._parse_date
+
+    def date_spy(value):
+        r = real_pd(value)
+        log.append({"k": "date", "value": value, "result": tuple(r) if r else None})
+        return r
     try:
         if loose:
             api._XML_AVAILABLE = False
         with mock.patch.object(api, "StrictFeedParser", S), mock.patch.object(api, "LooseFeedParser", L), \
-                mock.patch.object(mixin, "_urljoin", join_spy), warnings.catch_warnings():
+                mock.patch.object(mixin, "_urljoin", join_spy), mock.patch.object(nsbase, "_parse_date", date_spy), warnings.catch_warnings():
             warnings.simplefilter("ignore")
             try:
                 r = feedparser.parse(doc, response_headers=headers, **kw)
